@@ -35,6 +35,8 @@
      (3) C19_salt: add/restore/histories use the tree cache through find_path's answers only:
          oracles that answer alike (for instance one tree cache under two salts) give the same
          bytes after every call.
+     (4) C19_add_total: in reachable states add never hits a panic site of the model or runs out
+         of fuel (any oracle), given atoms and paths below 2^34 bytes.
    NOT proved (level claimed: other): that TreeCache::find_path satisfies orc_valid, and that its
    answers do not depend on the salt. Both are decided by the check on every run: every emitted
    path is validated against the model's stack; every history runs under three serializers (three
@@ -44,7 +46,7 @@
    addition holds the sentinel more than once, when the addition is undone, and when a node that
    holds the sentinel is added or occurs more than once. *)
 From Clvm Require Import Model.Incremental Proofs.BackRefEmit Proofs.IncrementalUndo Proofs.IncrementalSalt
-  Proofs.IncrementalDecode Proofs.IncrementalWitness.
+  Proofs.IncrementalDecode Proofs.IncrementalWitness Proofs.IncrementalTotal.
 Open Scope N_scope.
 
 (* ---- (1) undo *)
@@ -69,6 +71,16 @@ Theorem C19_restore_truncates : forall s live u s0, reach s live -> In (u, s0) l
   is_prefix (get_ref (restore u s)) (get_ref s) /\
   get_ref (restore u s) = firstn (N.to_nat (u_pos u)) (get_ref s).
 Proof. exact restore_truncates. Qed.
+
+(* ---- totality: in a reachable state whose serialization is not complete, add cannot fail for
+   any oracle — no panic site of the model (asserts 32, 33) and no fuel exhaustion — as long as
+   atoms and returned paths are shorter than 2^34 bytes (write_atom's limit). The premise on
+   write_stk holds when every added tree had small atoms (it holds sub-trees of additions only,
+   and add preserves it). *)
+Theorem C19_add_total : forall s live orc node, reach s live -> read_ops s <> [] ->
+  orc_small orc -> small node -> Forall small (write_stk s) ->
+  exists d u s', add orc s node = Ok (d, u, s') /\ Forall small (write_stk s').
+Proof. exact add_total. Qed.
 
 (* ---- (2) decode, at the format level of C17.
    reach_ok: the states reachable by add (valid oracle, atoms byte-valued) and restore of any live
@@ -161,6 +173,7 @@ Print Assumptions C19_undo_bytes.
 Print Assumptions C19_undo_behaves.
 Print Assumptions C19_append_only.
 Print Assumptions C19_restore_truncates.
+Print Assumptions C19_add_total.
 Print Assumptions C19_decode.
 Print Assumptions C19_decode_both.
 Print Assumptions C19_decode_at_rest.
